@@ -55,6 +55,17 @@ func rCertFor(t *testing.T, priv ed25519.PrivateKey) (ed25519.PrivateKey, *ssh.C
 	return priv, c
 }
 
+// rSignerSign: sign through the signer the shim hands out for the hardware certificate
+func rSignerSign(s *Server, hw *ssh.Certificate) func() {
+	sgs, _ := s.Signers()
+	for _, sg := range sgs {
+		if string(sg.PublicKey().Marshal()) == string(hw.Marshal()) {
+			return func() { sg.Sign(rand.Reader, []byte("d")) }
+		}
+	}
+	return func() {}
+}
+
 // gateConn suspends reads (the replies of the underlying agent) while closed.
 type gateConn struct {
 	net.Conn
@@ -103,6 +114,7 @@ func replayLockHeld(t *testing.T, op string, lockedFirst bool) {
 		"Remove": func() { s.Remove(hw) }, "RemoveAll": func() { s.RemoveAll() }, "AddHardCert": func() { s.AddHardCert(fresh, "fresh") },
 		"Lock": func() { s.Lock([]byte("p")) }, "Unlock": func() { s.Unlock([]byte("p")) }, "Close": func() { s.Close() },
 		"Extension": func() { s.Extension("ext@vsym", []byte("x")) }, "Forward": func() { s.Forward([]byte{11}) },
+		"SignerSign": rSignerSign(s, hw),
 	}
 	f := ops[op]
 	if f == nil {
@@ -149,6 +161,7 @@ func replayAtomicity(t *testing.T, op string) string {
 		"Remove": func() { s.Remove(hw) }, "RemoveAll": func() { s.RemoveAll() }, "AddHardCert": func() { s.AddHardCert(fresh, "fresh") },
 		"Lock": func() { s.Lock([]byte("p")) }, "Unlock": func() { s.Unlock([]byte("p")) },
 		"Extension": func() { s.Extension("ext@vsym", []byte("x")) }, "Forward": func() { s.Forward([]byte{11}) },
+		"SignerSign": rSignerSign(s, hw),
 	}
 	f := ops[op]
 	if f == nil {
@@ -210,6 +223,7 @@ func replaySplit(t *testing.T, op string) string {
 		"Remove": func() { s.Remove(hw) }, "RemoveAll": func() { s.RemoveAll() }, "AddHardCert": func() { s.AddHardCert(fresh, "fresh") },
 		"Lock": func() { s.Lock([]byte("p")) }, "Unlock": func() { s.Unlock([]byte("p")) },
 		"Extension": func() { s.Extension("ext@vsym", []byte("x")) }, "Forward": func() { s.Forward([]byte{11}) },
+		"SignerSign": rSignerSign(s, hw),
 	}
 	f := ops[op]
 	if f == nil {
@@ -317,6 +331,8 @@ func TestVsymReplay(t *testing.T) {
 				return func() { s.Extension("ext@vsym", []byte("x")) }
 			case "Forward":
 				return func() { s.Forward([]byte{11}) }
+			case "SignerSign":
+				return rSignerSign(s, hw)
 			}
 			return func() {}
 		}
